@@ -96,6 +96,8 @@ type Scenario struct {
 	ReplaceCtx bool `json:"replacectx"`
 	// NoAbort (gin): the configured error handler answers but does not abort the handler chain
 	NoAbort bool `json:"noabort"`
+	// MwCanceled: the error a failing middleware returns wraps context.Canceled
+	MwCanceled bool `json:"mwcanceled"`
 }
 
 // outerCtx is the context every incoming request carries (context.Background unless the scenario says the
@@ -186,6 +188,10 @@ func mwFunc(sc *Scenario, i int, rq func() int, s godi.Scope) error {
 	sid, pid := seen(s)
 	emit(M{"ev": "mw", "rq": rq(), "i": i, "scope": sid, "probe": pid})
 	if sc.MwFail == i {
+		if sc.MwCanceled {
+			// the failure is (also) a context cancellation - e.g. a lookup that failed because the client went away
+			return fmt.Errorf("%w: %w", errMw, context.Canceled)
+		}
 		return errMw
 	}
 	return nil
